@@ -26,7 +26,7 @@ def gen_contracts(rnd, sigs, n):
         elif k == 'raises':
             out.append([cid, ['raises', cid, [scn.cls(rnd.choice(['ValueError', 'LookupError', 'Exception']))], None, None]])
         elif k == 'reason':
-            e = ['bin', 'ge', ['attr', 'a'], ['const', I(rnd.randint(0, 2))]]
+            e = ['bin', rnd.choice(['ge', 'ge', 'ne']), ['attr', 'a'], ['const', I(rnd.randint(0, 4))]]      # the body raises when a == 2: accepts and rejects both occur
             out.append([cid, ['reason', scn.cls('ValueError'), {'id': cid, 'sig': [['_', 'PosOrKw', None]], 'expr': e, 'msg': None, 'exc': None}]])
         else:
             out.append([cid, ['has', cid, rnd.choice([[], ['stdout'], ['io']]), None, None]])
